@@ -151,6 +151,11 @@ class Contract:
         pre = self.requires(self_obj, a) if self_obj is not None else self.requires(a)
         if check_pre:
             st.oblige(f"{ip.task.name}/{where}", pre if isinstance(pre, (SBool, bool)) else mk_bool(V._zb(pre)), "call-pre")
+            cinv = getattr(self, "invariant", None)
+            if cinv is not None and self_obj is not None and not getattr(self, "establishes_invariant", False) and getattr(self, "invariant_at_call_sites", True):
+                # the callee's body was verified assuming its class invariant: the caller owes it at the call
+                iv = cinv(self_obj)
+                st.oblige(f"{ip.task.name}/call-inv@{f.ref.qualname}:{(site or '').split(':')[-1]}", iv if isinstance(iv, (SBool, bool)) else mk_bool(V._zb(iv)), "call-pre")
         else:
             st.assume(pre if isinstance(pre, (SBool, bool)) else mk_bool(V._zb(pre)))
         # recursion: a contract with `decreases` (a non-negative integer measure of (self, a) / (a)) applied inside
@@ -572,7 +577,9 @@ class VerifyTask:
         else:
             st.assume(pre if isinstance(pre, (SBool, bool)) else mk_bool(V._zb(pre)))
         inv = getattr(c, "invariant", None)
-        if inv is not None and self_obj is not None:
+        # a method that (re-)establishes the class invariant (a setter called by the mutators while the
+        # invariant is temporarily broken) is verified WITHOUT assuming it at entry: `establishes_invariant`
+        if inv is not None and self_obj is not None and not getattr(c, "establishes_invariant", False):
             st.assume(inv(self_obj))
         st.cover(f"{self.name}/cover@pre")
         dec = getattr(c, "decreases", None)
@@ -595,7 +602,8 @@ class VerifyTask:
             for label, fml in c._gen(r):
                 st.oblige(f"{self.name}/on-raise/{label}", fml, "post")
             if inv is not None and self_obj is not None:
-                st.oblige(f"{self.name}/class-inv@raise", inv(self_obj), "invariant")
+                # (a method that establishes the invariant and fails leaves it as it found it)
+                st.oblige(f"{self.name}/class-inv@raise", implies(inv(old), inv(self_obj)) if getattr(c, "establishes_invariant", False) else inv(self_obj), "invariant")
             return
         st.cover(f"{self.name}/cover@exit")
         # spec queries in postconditions refer to the children as they were at entry
